@@ -389,6 +389,7 @@ type c11Shape struct {
 	nf     int
 	tagged bool
 	emb    string
+	embn   int // leaf fields inside the embedded struct (the last embn of nf)
 	ptrs   map[int]bool
 	dest   string
 	elem   reflect.Type // struct (or scalar) type of one row
@@ -417,7 +418,10 @@ func buildShape(st kit.M) (sh *c11Shape, err error) {
 		}
 	}()
 	sh = &c11Shape{prim: kit.Bool(st["prim"]), nf: kit.Num(st["nf"]), tagged: kit.Bool(st["tagged"]),
-		emb: kit.Str(st["emb"]), ptrs: map[int]bool{}, dest: kit.Str(st["dest"])}
+		emb: kit.Str(st["emb"]), embn: kit.Num(st["embn"]), ptrs: map[int]bool{}, dest: kit.Str(st["dest"])}
+	if (sh.emb == "none") != (sh.embn == 0) || sh.embn > sh.nf {
+		return nil, fmt.Errorf("inconsistent embedded descriptor emb=%s embn=%d nf=%d", sh.emb, sh.embn, sh.nf)
+	}
 	for _, p := range kit.List(st["ptrs"]) {
 		sh.ptrs[kit.Num(p)] = true
 	}
@@ -426,15 +430,16 @@ func buildShape(st kit.M) (sh *c11Shape, err error) {
 		return sh, nil
 	}
 	var fields []reflect.StructField
-	flat := sh.nf
-	if sh.emb != "none" {
-		flat = sh.nf - 1
-	}
+	flat := sh.nf - sh.embn
 	for i := 1; i <= flat; i++ {
 		fields = append(fields, fieldFor(sh, i))
 	}
 	if sh.emb != "none" {
-		inner := reflect.StructOf([]reflect.StructField{fieldFor(sh, sh.nf)})
+		var in []reflect.StructField
+		for i := flat + 1; i <= sh.nf; i++ {
+			in = append(in, fieldFor(sh, i))
+		}
+		inner := reflect.StructOf(in)
 		if sh.emb == "ptr" {
 			inner = reflect.PointerTo(inner)
 		}
@@ -484,10 +489,7 @@ func projectRow(sh *c11Shape, v reflect.Value) ([]int, error) {
 		return []int{n}, err
 	}
 	out := make([]int, sh.nf)
-	flat := sh.nf
-	if sh.emb != "none" {
-		flat = sh.nf - 1
-	}
+	flat := sh.nf - sh.embn
 	for i := 1; i <= flat; i++ {
 		n, err := scalarToInt(v.Field(i - 1))
 		if err != nil {
@@ -499,16 +501,17 @@ func projectRow(sh *c11Shape, v reflect.Value) ([]int, error) {
 		e := v.Field(flat)
 		if e.Kind() == reflect.Pointer {
 			if e.IsNil() {
-				out[sh.nf-1] = 0
-				return out, nil
+				return out, nil // the embedded leaf fields stay zero
 			}
 			e = e.Elem()
 		}
-		n, err := scalarToInt(e.Field(0))
-		if err != nil {
-			return nil, err
+		for k := 0; k < sh.embn; k++ {
+			n, err := scalarToInt(e.Field(k))
+			if err != nil {
+				return nil, err
+			}
+			out[flat+k] = n
 		}
-		out[sh.nf-1] = n
 	}
 	return out, nil
 }
@@ -645,6 +648,11 @@ func runRowMapCase(c kit.Case, rep *kit.Reporter) (v kit.Verdict) {
 	strict := kit.Bool(st["strict"])
 	single := sh.dest == "one"
 	allow := kit.List(st["allow"])
+	if strict && sh.emb != "none" && len(cols) < sh.nf && len(cols) >= sh.nf-sh.embn+1 && len(kit.List(st["data"])) > 0 {
+		// fewer columns than leaf fields but not fewer than top-level fields: only the flattened count
+		// makes this an error (vacuity guard of checks/c11.py)
+		rep.Count("rowmap.strict-fewer-than-leaf-fields", 1)
+	}
 	vias := []string{"conn", "tx", "stmt"}
 	if strict {
 		vias = append(vias, "nocache")
